@@ -664,6 +664,8 @@ class Circuit(Function):
                     # the replaced base input had no operands: register the new ones
                     for operand in new_operands:
                         self._add_user(operand, old_to_new_names[cur_gate.label])
+                    if cur_gate.gate_type != gate.INPUT:
+                        gates_for_block.add(old_to_new_names[cur_gate.label])
 
         self.set_outputs(
             [output for output in self._outputs if output not in this_connectors]
